@@ -6,6 +6,7 @@ import (
 	"os"
 	"runtime/debug"
 	"sort"
+	"strconv"
 	"strings"
 
 	"golang.org/x/tools/go/ssa"
@@ -14,17 +15,25 @@ import (
 type pendingObl struct {
 	name, kind, goal, src, expect string
 	drop                          string // marker of a script line to leave out (the site's own abort assumption)
+	dropLemmasFrom                int    // >0: leave out the assumptions of lemmas number >= this (a lemma is proved from the earlier ones only)
 }
 
-func scriptWithout(base, marker string) string {
-	if marker == "" {
+func scriptWithout(base, marker string, lemmasFrom int) string {
+	if marker == "" && lemmasFrom == 0 {
 		return base
 	}
 	lines := strings.Split(base, "\n")
 	out := lines[:0:0]
 	for _, l := range lines {
-		if strings.HasSuffix(l, marker) {
+		if marker != "" && strings.HasSuffix(l, marker) {
 			continue
+		}
+		if lemmasFrom > 0 {
+			if i := strings.LastIndex(l, ";;lemma:"); i >= 0 {
+				if k, err := strconv.Atoi(strings.TrimSuffix(l[i+len(";;lemma:"):], ";")); err == nil && k >= lemmasFrom {
+					continue
+				}
+			}
 		}
 		out = append(out, l)
 	}
@@ -83,6 +92,12 @@ func VerifyFunc(w *World, fn *ssa.Function, c *Contract, mode string) (res *FnRe
 	if c != nil && c.Flags["decfull"] {
 		fc.B.DecFull = true
 	}
+	if c != nil && c.Flags["splittail"] {
+		fc.B.SplitTail = true
+	}
+	if c != nil && c.Flags["splitext"] {
+		fc.B.SplitExt = true
+	}
 	qn := QualName(fn)
 	res = &FnResult{Fn: qn, Instrs: instrCount(fn)}
 	defer func() {
@@ -136,6 +151,14 @@ func VerifyFunc(w *World, fn *ssa.Function, c *Contract, mode string) (res *FnRe
 		if len(c.Requires) > 0 {
 			fc.addCover("#vacuity.requires", "true", "requires satisfiable")
 		}
+		// lemmas: facts over the parameters (entry state), each proved from the preconditions and the earlier
+		// lemmas, then available to every other obligation of the function
+		for i, l := range c.Lemmas {
+			g := fc.evalGoal(env, l.E)
+			fc.pending = append(fc.pending, pendingObl{name: "#lemma." + clauseName(l, i), kind: "body", goal: not(g), src: l.Src, expect: "unsat", dropLemmasFrom: i + 1})
+			a := fc.evalBool(env, l.E)
+			fc.B.Raw(fmt.Sprintf("(assert %s) ;;lemma:%d;", a, i+1))
+		}
 	}
 	results, out, retCond := fr.exec(args, nil, st)
 	for i, r := range results {
@@ -170,7 +193,7 @@ func VerifyFunc(w *World, fn *ssa.Function, c *Contract, mode string) (res *FnRe
 	base := fc.B.Script()
 	for _, p := range fc.pending {
 		o := &Obl{Name: qn + p.name, Kind: p.kind, Expect: p.expect, Src: p.src, Fn: qn, ModelVars: fc.modelVars}
-		o.Script = scriptWithout(base, p.drop) + "(assert " + simplifyLine(p.goal) + ")\n(check-sat)\n"
+		o.Script = scriptWithout(base, p.drop, p.dropLemmasFrom) + "(assert " + simplifyLine(p.goal) + ")\n(check-sat)\n"
 		res.Obls = append(res.Obls, o)
 		if rs, ok := restrictGlobal[o.Name]; ok && c != nil {
 			if re, err := ParseExpr(rs); err == nil {
